@@ -232,6 +232,26 @@ def r2_ref_patterns(text, log):
     return ''.join(out)
 
 
+def r2_closure_params(text, log):
+    """R2 for closures: `|&x| BODY` -> `|x__r| { let x = *x__r; BODY }` (single by-reference pattern parameter)."""
+    while True:
+        sn = Snippet(text)
+        hit = None
+        for c in sn.closures(0, len(text)):
+            mm = re.match(r'\s*&\s*([a-z_][a-z0-9_]*)\s*$', c['params'])
+            if mm:
+                hit = (c, mm.group(1))
+                break
+        if not hit:
+            return text
+        c, nm = hit
+        body = text[c['body_start']:c['body_end']]
+        inner = body[1:-1].strip() if c['is_block'] else body.strip()
+        new = '|%s__r| { let %s = *%s__r; %s }' % (nm, nm, nm, inner)
+        log.append(dict(rule='R2', before=norm_ws(text[c['bar']:c['body_end']]), after=norm_ws(new)))
+        text = text[:c['bar']] + new + text[c['body_end']:]
+
+
 def r9_iter(text, log, exprs):
     """R9: `for p in &C {` -> `for p in C.iter() {` for listed hash collections C."""
     for e in exprs:
